@@ -222,6 +222,9 @@ def run(sc):
     except RefError:
         r.discarded = True
         return r
+    if not dense and sc['mode'] == 'on' and not common.ref_defined_on_prefixes([ast], sc['data'], sc['n']):
+        r.discarded = True
+        return r
     try:
         out = evaluate(sc, desc_of(sc), r)
     except M.ApiCrash as e:
